@@ -1066,7 +1066,8 @@ fn subset_everything(s: &mut Session, fc: &FontCtx, flags: u16) {
     let input = format!("font={} flags={:#06x} (subset to everything)", fc.label, flags);
     let ident = out.view.new_to_old_gid_list.iter().all(|(n, o)| n == o) && out.view.new_to_old_gid_list.len() as u32 == n;
     s.oracle("everything-plan-is-identity", ident, || input.clone(), || format!("{} of {} glyphs", out.view.new_to_old_gid_list.len(), n));
-    let cm0 = cmap_pairs(&font);
+    // entries that name a glyph the font does not have carry no observation (nothing can be drawn or measured)
+    let cm0: Vec<(u32, u32)> = cmap_pairs(&font).into_iter().filter(|(_, g)| *g < n).collect();
     let cm1 = FontRef::new(&out.subset).map(|f| cmap_pairs(&f)).unwrap_or_default();
     s.oracle("everything-charmap-unchanged", cm0 == cm1 || !fc.cmap_consistent, || input.clone(), || format!("{} vs {} mappings", cm0.len(), cm1.len()));
 }
@@ -1215,7 +1216,16 @@ fn syn_mixed(r: &mut Rng, id: u64) -> Syn {
         adv,
         lsb,
         num_long,
-        cmap: { let d = r.range(5, 40) as u64; rand_cmap(r, n, d) },
+        cmap: {
+            let d = r.range(5, 40) as u64;
+            let mut m = rand_cmap(r, n, d);
+            // a character map entry that names a glyph beyond the font's glyph count
+            if r.chance(1, 10) {
+                m.push((0x2603, (n as u32) + r.below(3) as u32));
+                m.sort();
+            }
+            m
+        },
         long_loca: r.chance(1, 3),
         align: *r.pick(&[2usize, 2, 4, 1]),
     }
@@ -1319,6 +1329,14 @@ fn glyph_unit(s: &mut Session, r: &mut Rng, count: usize) {
                 let k = r.below(rec.len() as u64) as usize;
                 rec[k] = r.next() as u8;
             }
+            5 if !composite && rec.len() >= 12 => {
+                // last endPtsOfContours = 0xFFFF: `num_coords + 1` in u16
+                let nc = u16::from_be_bytes([rec[0], rec[1]]) as usize;
+                if nc > 0 && rec.len() >= 10 + 2 * nc {
+                    rec[10 + 2 * (nc - 1)] = 0xFF;
+                    rec[10 + 2 * (nc - 1) + 1] = 0xFF;
+                }
+            }
             4 => {
                 // poke the flag / repeat area of simple glyphs, or the component flags
                 let k = (rec.len() / 2 + r.below((rec.len() / 2) as u64 + 1) as usize).min(rec.len() - 1);
@@ -1342,6 +1360,88 @@ fn glyph_unit(s: &mut Session, r: &mut Rng, count: usize) {
         s.count(&format!("glyph-unit:{}:{}", if composite { "composite" } else { "simple" },
             if resp == "-" { "empty" } else if resp == "trap" || resp == "readerr" { &resp } else { "bytes" }));
         s.case("glyph", format!("c17.glyph {} M {} D {}", flags, pairs_str(&map), hex(&rec)), resp);
+    }
+}
+
+
+// ---------------------------------------------------------------------------------------------
+// unit-level: trim_simple_glyph_padding and glyf_closure_glyphs through the hooks
+// ---------------------------------------------------------------------------------------------
+
+fn trim_unit(s: &mut Session, r: &mut Rng, count: usize) {
+    for _ in 0..count {
+        // a flag stream: mostly well-formed runs, sometimes arbitrary bytes
+        let mut data: Vec<u8> = vec![];
+        let mut npts = 0u32;
+        let nruns = r.range(0, 6);
+        for _ in 0..nruns {
+            let mut f = r.next() as u8;
+            if r.chance(3, 4) {
+                f &= !0x08;
+            }
+            data.push(f);
+            if f & 0x08 != 0 {
+                let rep = *r.pick(&[0u8, 1, 2, 62, 63, 64, 127, 254, 255]);
+                data.push(rep);
+                npts += rep as u32 + 1;
+            } else {
+                npts += 1;
+            }
+        }
+        // coordinate bytes / padding / shortage
+        let tail = r.below(12) as usize;
+        data.extend(r.bytes(tail));
+        if r.chance(1, 6) {
+            let k = r.below(data.len() as u64 + 1) as usize;
+            data.truncate(k);
+        }
+        let num_coords = match r.below(6) {
+            0 => r.range(1, 0xFFFF) as u16,
+            1 => (npts.saturating_sub(1)).clamp(1, 0xFFFF) as u16,
+            2 => (npts + 1).min(0xFFFF) as u16,
+            _ => npts.clamp(1, 0xFFFF) as u16,
+        };
+        let resp = match catch(|| vh::trim_simple_glyph_padding(&data, num_coords)) {
+            Ok(n) => n.to_string(),
+            Err(_) => "trap".into(),
+        };
+        s.count(if resp == "0" { "trim:0" } else if resp == "trap" { "trim:trap" } else { "trim:len" });
+        s.case("trim", format!("c17.trim {} {}", num_coords, hex(&data)), resp);
+    }
+}
+
+fn closure_unit(s: &mut Session, r: &mut Rng, fc: &FontCtx, per_font: usize) {
+    let Ok(font) = FontRef::new(fc.data) else { return };
+    let n = fc.comps.len() as u32;
+    if n == 0 {
+        return;
+    }
+    let comps_s = fc
+        .comps
+        .iter()
+        .map(|c| if c.is_empty() { "0".to_string() } else { format!("{} {}", c.len(), join(c)) })
+        .collect::<Vec<_>>()
+        .join(" ");
+    for _ in 0..per_font {
+        let gid = if r.chance(1, 10) { n + r.below(3) as u32 } else { r.below(n as u64) as u32 };
+        let depth = *r.pick(&[0u8, 0, 0, 1, 30, 62, 63, 64, 65, 66, 200, 255]);
+        let ops = *r.pick(&[-3i32, -1, 0, 1, 2, 3, 5, 20, 63, 64, 65, 128, 1000, i32::MAX]);
+        let mut pre: BTreeSet<u32> = BTreeSet::new();
+        for _ in 0..r.below(4) {
+            pre.insert(r.below(n as u64 + 1) as u32);
+        }
+        let mut set = IntSet::<GlyphId>::empty();
+        for g in &pre {
+            set.insert(GlyphId::new(*g));
+        }
+        let resp = match catch(|| vh::glyf_closure(&font, gid, &mut set, ops, depth).map(|o| (o, set.iter().map(|g| g.to_u32()).collect::<Vec<_>>()))) {
+            Ok(Some((o, v))) => format!("{} {}", join(&v), o),
+            Ok(None) => continue,
+            Err(_) => "trap".into(),
+        };
+        let rem = 65u32.saturating_sub(depth as u32);
+        let pre_v: Vec<u32> = pre.into_iter().collect();
+        s.case("closure", format!("c17.closure {} {} {} G {} S {}", rem, ops, gid, comps_s, join(&pre_v)), resp);
     }
 }
 
@@ -1375,12 +1475,16 @@ fn run(cfg: &Config, s: &mut Session) {
 
     // 1. unit-level glyph rewriting
     glyph_unit(s, &mut r, if th { 60_000 } else { 6_000 });
+    trim_unit(s, &mut r, if th { 100_000 } else { 10_000 });
 
     // 2. small mixed synthetic fonts
     for id in 0..(if th { 1500 } else { 160 }) {
         let sf = syn_mixed(&mut r, id);
         let data = build_font(&sf);
         run_font(s, &mut r, sf.name.clone(), &data, if th { 6 } else { 4 }, true);
+        if let Some(fc) = make_ctx(sf.name.clone(), &data) {
+            closure_unit(s, &mut r, &fc, 3);
+        }
     }
 
     // 3. closure budgets: chains around the nesting limit, fans around the operation budget
@@ -1394,6 +1498,7 @@ fn run(cfg: &Config, s: &mut Session) {
         let sf = syn_graph(kind, p);
         let data = build_font(&sf);
         let Some(fc) = make_ctx(sf.name.clone(), &data) else { continue };
+        closure_unit(s, &mut r, &fc, if th { 60 } else { 12 });
         let n = fc.comps.len() as u32;
         let reqs = vec![
             Req { gids: vec![n - 1], unicodes: vec![], flags: 0 },
